@@ -124,12 +124,12 @@ Definition opt (v : cview) (k : str) : option cval :=
 Definition oth (v : cview) (k : str) : option cval :=
   match assoc_str k (v_other v) with Some o => o | None => None end.
 
-(* harness/markup_util._s: None -> '' *)
+(* a str option: anything else (None included) makes the pipeline raise or misbehave: outside the model *)
 Definition get_str (o : option cval) : option str :=
-  match o with None | Some CNone => Some [] | Some (CStr s) => Some s | _ => None end.
-(* _strs: None -> [] *)
+  match o with Some (CStr s) => Some s | _ => None end.
+(* a list-of-str option *)
 Definition get_strs (o : option cval) : option (list str) :=
-  match o with None | Some CNone => Some [] | Some (CStrs l) => Some l | _ => None end.
+  match o with Some (CStrs l) => Some l | _ => None end.
 (* bool(x) *)
 Definition truthy (o : option cval) : option bool :=
   match o with
